@@ -79,6 +79,13 @@ def query (t : Tables) (q : List String) : Option String :=
   | ["chunksab", a, b] => do some (opt showChunks (t.stsc.getContainingChunks (← a.toNat?) (← b.toNat?)))
   | ["rangesab", a, b] => do
       some (opt (fun (l : List (Nat × Nat)) => "/".intercalate (l.map fun p => s!"{p.1}:{p.2}")) (t.getRanges (← a.toNat?) (← b.toNat?)))
+  -- one object, queries in the caller's order (state left behind by an earlier lookup must not matter)
+  | ["seq", l] => do
+      let l ← natList l
+      some (join (l.map fun i =>
+        opt (fun (p : Nat × Nat) => s!"{p.1}:{p.2}") (t.stts.getDecodeTime i) ++ ";" ++ opt toString (t.stts.getDur i) ++ ";" ++
+        (match t.ctts with | none => "-" | some c => opt toString (c.getCto i)) ++ ";" ++ opt toString (t.stsz.getSampleSize i) ++ ";" ++
+        opt (fun (p : Nat × Nat) => s!"{p.1}:{p.2}") (t.stsc.chunkNrFromSampleNr i)))
   | ["sdata", a, b] => do
       let a ← a.toNat?
       let b ← b.toNat?
